@@ -123,7 +123,13 @@ Definition pairN_eqb (a b : str * N) : bool := str_eqb (fst a) (fst b) && (snd a
 Lemma mod_parse_table_facts :
   Forall (fun p => lookup_lit mod_parse_table (fst p) = Some (snd p)
                    /\ forallb is_ascii_nonupper (fst p) = true) mod_parse_table.
-Proof. unfold mod_parse_table. repeat (constructor; [split; vm_compute; reflexivity|]). constructor. Qed.
+Proof.
+  assert (H : forallb (fun p => match lookup_lit mod_parse_table (fst p) with Some b => b =? snd p | None => false end
+                                && forallb is_ascii_nonupper (fst p)) mod_parse_table = true) by (vm_compute; reflexivity).
+  apply Forall_forall. intros p Hp. rewrite forallb_forall in H. specialize (H p Hp).
+  apply andb_true_iff in H as [H1 H2]. split; [|exact H2].
+  destruct (lookup_lit mod_parse_table (fst p)) as [b|]; [|discriminate]. apply N.eqb_eq in H1. subst. reflexivity.
+Qed.
 
 Lemma mod_print_table_facts :
   Forall (fun p => In (snd p, fst p) mod_parse_table /\ ~ In 43 (snd p) /\ ~ In 32 (snd p) /\ snd p <> [])
